@@ -64,40 +64,39 @@ theorem mkForall_part {q : Quant} {x : String} {d body a e : Expr} (hd : sub d.t
   have : k' ≠ 0 := by omega
   simp [this, pure, Except.pure]
 
-theorem compound_cases : ∀ t : Nat, t < 57 → t &&& 56 = t → t ≠ 0 → t ∈ [8, 16, 24, 32, 40, 48, 56] := by decide
-
-theorem sub_compound_cases {t : Nat} (hs : sub t T.COMPOUND) (hne : t ≠ 0) : t ∈ [8, 16, 24, 32, 40, 48, 56] := by
-  have hs' : t &&& 56 = t := hs
-  have hle : t < 57 := by
-    have : t &&& 56 ≤ 56 := Nat.and_le_right
-    omega
-  exact compound_cases t hle hs' hne
-
+/-- inside an atomic type and not empty is equal to it -/
 theorem bool_of_sub {t : Nat} (hs : sub t T.BOOL) (hne : t ≠ 0) : t = T.BOOL := by
-  have hs' : t &&& 1 = t := hs
-  have hle : t &&& 1 ≤ 1 := Nat.and_le_right
-  show t = 1
-  omega
+  have hs' : t &&& T.BOOL = t := hs
+  rcases G1_atoms.1.2 t with h0 | h1
+  · exact absurd (by rw [← hs', Nat.and_comm]; exact h0) hne
+  · calc t = t &&& T.BOOL := hs'.symm
+      _ = T.BOOL &&& t := Nat.and_comm _ _
+      _ = T.BOOL := h1
+
+/-- the table entry of `len` (stated with the generated constants, so that neither the numbering of the types nor the order of
+    the function table matters) -/
+theorem len_table : (findFun "len").map (·.overloads) = some [⟨[T.COMPOUND], T.NUMBER, none⟩] := by decide
 
 /-- `len(d)` is accepted, unchanged, for every domain a quantifier can hold -/
 theorem lenCall_ok {d : Expr} (hd : sub d.ty T.COMPOUND) (hnd : d.ty ≠ 0) :
     mkCall "len" (.cons d .nil) = .ok (.call T.NUMBER "len" (.cons d .nil)) := by
-  have hc := sub_compound_cases hd hnd
-  have hf : findFun "len" = some ⟨"len", [⟨[56], 2, none⟩]⟩ := by decide
-  unfold mkCall
-  rw [hf]
-  have hfilter : (([⟨[56], 2, none⟩] : List Sig).filter (·.accepts (ExprList.cons d .nil).tys)) = [⟨[56], 2, none⟩] := by
-    simp only [ExprList.tys]
-    simp only [List.mem_cons, List.not_mem_nil, or_false] at hc
-    rcases hc with h | h | h | h | h | h | h <;> rw [h] <;> decide
-  simp only [hfilter]
-  have hcast : castArgs (.cons d .nil) ((⟨[56], 2, none⟩ : Sig).paramsFor (ExprList.cons d .nil).length) = .ok (.cons d .nil) := by
-    have : (⟨[56], 2, none⟩ : Sig).paramsFor (ExprList.cons d .nil).length = [56] := by
-      simp only [ExprList.length]; decide
-    rw [this]
-    simp [castArgs, castE_stable (t := 56) hd hnd, bind, Except.bind, pure, Except.pure]
-  simp [hcast, bind, Except.bind, pure, Except.pure]
-  rfl
+  have htab := len_table
+  cases hf : findFun "len" with
+  | none => rw [hf] at htab; cases htab
+  | some fd =>
+    rw [hf] at htab
+    simp only [Option.map_some, Option.some.injEq] at htab
+    have hd' : d.ty &&& T.COMPOUND = d.ty := hd
+    have hacc : (⟨[T.COMPOUND], T.NUMBER, none⟩ : Sig).accepts (ExprList.cons d .nil).tys = true := by
+      simp [ExprList.tys, Sig.accepts, hd', hnd]
+    have hres : fd.result = T.NUMBER := by
+      unfold FunDef.result; rw [htab]; decide
+    unfold mkCall
+    simp only [hf, htab, List.filter, hacc, hres]
+    have hpar : (⟨[T.COMPOUND], T.NUMBER, none⟩ : Sig).paramsFor (ExprList.cons d .nil).length = [T.COMPOUND] := by
+      simp [Sig.paramsFor, ExprList.length]
+    rw [hpar]
+    simp [castArgs, castE_stable hd hnd, bind, Except.bind, pure, Except.pure]
 
 /-- `empty_test(d)` is accepted for every domain a quantifier can hold, and is `len(d) = 0` around `d` itself -/
 theorem emptyTest_eq {d : Expr} (hd : sub d.ty T.COMPOUND) (hnd : d.ty ≠ 0) :
@@ -154,11 +153,11 @@ theorem WT_logic_operands {t : DataType} {op : String} {a b : Expr} (h : WT (.bi
   obtain ⟨d, hd, ht, ha, hb, hsa, hsb, _⟩ := h
   have hp : d.p1 = T.BOOL ∧ d.p2 = T.BOOL ∧ d.res = T.BOOL := by
     rcases hop with rfl | rfl | rfl
-    · have : findBin "and" = some ⟨"and", 1, 1, 1, true, true, true⟩ := by decide
+    · have : findBin "and" = some ⟨"and", T.BOOL, T.BOOL, T.BOOL, true, true, true⟩ := by decide
       rw [this] at hd; cases hd; exact ⟨rfl, rfl, rfl⟩
-    · have : findBin "or" = some ⟨"or", 1, 1, 1, true, true, true⟩ := by decide
+    · have : findBin "or" = some ⟨"or", T.BOOL, T.BOOL, T.BOOL, true, true, true⟩ := by decide
       rw [this] at hd; cases hd; exact ⟨rfl, rfl, rfl⟩
-    · have : findBin "implies" = some ⟨"implies", 1, 1, 1, true, false, false⟩ := by decide
+    · have : findBin "implies" = some ⟨"implies", T.BOOL, T.BOOL, T.BOOL, true, false, false⟩ := by decide
       rw [this] at hd; cases hd; exact ⟨rfl, rfl, rfl⟩
   rw [hp.1] at hsa; rw [hp.2.1] at hsb
   exact ⟨bool_of_sub hsa (WT_ne _ ha), bool_of_sub hsb (WT_ne _ hb), by rw [ht, hp.2.2]⟩
@@ -166,20 +165,20 @@ theorem WT_logic_operands {t : DataType} {op : String} {a b : Expr} (h : WT (.bi
 theorem WT_not_operand {t : DataType} {op : String} {a : Expr} (h : WT (.un t op a)) (hop : op = "not") : a.ty = T.BOOL ∧ t = T.BOOL := by
   obtain ⟨d, hd, ht, ha, hs⟩ := h
   subst hop
-  have : findUn "not" = some ⟨"not", 1, 1⟩ := by decide
+  have : findUn "not" = some ⟨"not", T.BOOL, T.BOOL⟩ := by decide
   rw [this] at hd; cases hd
   exact ⟨bool_of_sub hs (WT_ne _ ha), ht⟩
 
 /-- `Not(a)` on an exactly boolean operand -/
 theorem mkNot_ok {a : Expr} (h : a.ty = T.BOOL) : mkNot a = .ok (.un T.BOOL Gen.NOT_OPERATOR a) := by
   obtain ⟨d, hd, hm⟩ := mkNot_stable a h
-  have : findUn Gen.NOT_OPERATOR = some ⟨"not", 1, 1⟩ := by decide
+  have : findUn Gen.NOT_OPERATOR = some ⟨"not", T.BOOL, T.BOOL⟩ := by decide
   rw [this] at hd; cases hd
   exact hm
 
 theorem mkAnd_ok {a b : Expr} (ha : a.ty = T.BOOL) (hb : b.ty = T.BOOL) : mkAnd a b = .ok (.bin T.BOOL Gen.AND_OPERATOR a b) := by
   obtain ⟨d, hd, hm⟩ := mkAnd_stable a b ha hb
-  have : findBin Gen.AND_OPERATOR = some ⟨"and", 1, 1, 1, true, true, true⟩ := by decide
+  have : findBin Gen.AND_OPERATOR = some ⟨"and", T.BOOL, T.BOOL, T.BOOL, true, true, true⟩ := by decide
   rw [this] at hd; cases hd
   exact hm
 
@@ -252,14 +251,15 @@ theorem findUn_token {op : String} {d : UnDef} (h : findUn op = some d) : d ∈ 
   have h2 := List.find?_some h
   exact ⟨List.mem_of_find?_eq_some h, eq_of_beq h2⟩
 
+/-- in the operator table only `not` can yield a boolean -/
+theorem unOps_bool_is_not : ∀ d ∈ Gen.unOps, d.res &&& T.BOOL ≠ 0 → d.token = "not" := by decide
+
 /-- a well-typed unary node that can be boolean is a negation -/
 theorem WT_un_bool {t : DataType} {op : String} {a : Expr} (h : WT (.un t op a)) (hb : t &&& T.BOOL ≠ 0) : op = "not" := by
   obtain ⟨d, hd, ht, _, _⟩ := h
   obtain ⟨hm, htok⟩ := findUn_token hd
-  simp only [Gen.unOps, List.mem_cons, List.not_mem_nil, or_false] at hm
-  rcases hm with rfl | rfl
-  · subst ht; exact absurd (by decide) hb
-  · exact htok.symm
+  rw [← htok]
+  exact unOps_bool_is_not d hm (by rw [← ht]; exact hb)
 
 theorem refAnd_ok {alias : String} {op a b : Expr} (h : (a.containsRef alias || b.containsRef alias) = true) :
     ∃ r, refAnd alias op a b = .ok r := by
